@@ -1,0 +1,35 @@
+//! Verification hooks, compiled only with the cargo feature `verif_hooks`.
+//!
+//! Nothing in here changes the behaviour of the library: it re-exports the
+//! (otherwise private) unique table so that it can be driven directly, and
+//! holds two process-wide capacity overrides that let a test harness start the
+//! unique table and the LRU apply cache small enough to observe growth.
+pub use crate::backing_store::{BackedRobinhoodTable, UniqueTable};
+use std::sync::atomic::{AtomicUsize, Ordering};
+
+/// initial capacity of every `BackedRobinhoodTable` created from now on (0 = library default)
+static TABLE_CAPACITY: AtomicUsize = AtomicUsize::new(0);
+/// initial capacity exponent of every `LruIteTable` created from now on (usize::MAX = library default)
+static LRU_CAPACITY: AtomicUsize = AtomicUsize::new(usize::MAX);
+
+pub fn set_table_capacity(cap: Option<usize>) {
+    TABLE_CAPACITY.store(cap.unwrap_or(0), Ordering::SeqCst)
+}
+
+pub fn table_capacity() -> Option<usize> {
+    match TABLE_CAPACITY.load(Ordering::SeqCst) {
+        0 => None,
+        c => Some(c),
+    }
+}
+
+pub fn set_lru_capacity(cap: Option<usize>) {
+    LRU_CAPACITY.store(cap.unwrap_or(usize::MAX), Ordering::SeqCst)
+}
+
+pub fn lru_capacity() -> Option<usize> {
+    match LRU_CAPACITY.load(Ordering::SeqCst) {
+        usize::MAX => None,
+        c => Some(c),
+    }
+}
